@@ -1,6 +1,7 @@
 import Iauthd.Proto.Step
 import Iauthd.Proto.Hist
 import Drv.Util
+import Drv.TagRes
 /-
   drv_proto model [--version <hex>]  < ops        one record per op, as harness/h_proto.c
 -/
@@ -16,6 +17,7 @@ structure DSt where
   st : State := {}
   started : Bool := false
   faulted : Bool := false
+  tr : Drv.TagRes.St := {}      -- symbolic routing tags (@T<cid>#<k>|<fallback>@), see vlib/tagres.py
 
 def hexLines (ls : List Bytes) : String :=
   Bytes.toHex (ls.flatMap fun l => l ++ [10])
@@ -64,8 +66,10 @@ def stepOp (version : Bytes) (d : DSt) (line : String) : DSt × String :=
       ({ d with st := s1, live := live, started := true }, s!"rc 0 out {hexLines (startup s1 version)}")
     | "in" :: h :: _ =>
       if !d.started then (d, "bad-op") else
-      match stepChunk d.st (Bytes.ofHex h) with
-      | .ok (s, out) => ({ d with st := s }, s!"out {hexLines out}")
+      let data := Drv.TagRes.resolve d.tr (Bytes.ofHex h)
+      let tr := Drv.TagRes.fed d.tr data
+      match stepChunk d.st data with
+      | .ok (s, out) => ({ d with st := s, tr := Drv.TagRes.out tr out }, s!"out {hexLines out}")
       | .error f => ({ d with faulted := true }, s!"fault {repr f}")
     | ["timeout", id] =>
       if !d.started then (d, "bad-op") else
@@ -150,7 +154,7 @@ def judgeOp (j : JSt) (op : String) (rec : String) : JSt × String :=
       -- the banner must come first
       let v := if (outs.headD []).take 3 == b "V :" then v else v ++ [⟨"C09", "the first line is not the version banner"⟩]
       ({ j with t := t, started := true }, fmtViol v)
-    | "in" :: h :: _ =>
+    | "in" :: h :: extra =>
       let chunk := Bytes.ofHex h
       let (lines, tail) := Iauthd.Proto.splitLines chunk
       if lines.length != 1 || !tail.isEmpty then ({ j with skip := true }, "skip")
@@ -158,7 +162,22 @@ def judgeOp (j : JSt) (op : String) (rec : String) : JSt × String :=
       else
         let raw := cstr (lines.headD [])
         let outs := match rf with | ["out", oh] => unhexLines oh | _ => []
-        let (t, ex) := if raw.isEmpty then (j.t, {}) else onLine j.t raw
+        -- `for=<cid>#<k>`: the reply answers a query of the k-th announced instance of <cid>
+        -- (symbolic routing tag); for any other instance of that id it is a stray line
+        let meantElsewhere : Bool :=
+          match extra.find? (·.startsWith "for=") with
+          | some f =>
+            match ((f.drop 4).toString.splitOn "#") with
+            | [c, k] =>
+              match c.toInt?, k.toNat? with
+              | some cid, some kk =>
+                let cmd := ((tokenize raw).argv.headD []).getD 0 0
+                (cmd == 88 || cmd == 120) &&
+                  ((j.t.ordinals.find? (·.1 == cid)).map (·.2)).getD 0 != kk
+              | _, _ => false
+            | _ => false
+          | none => false
+        let (t, ex) := if raw.isEmpty || meantElsewhere then (j.t, {}) else onLine j.t raw
         let (t, v) := onOutputs t ex outs
         let v := v ++ stuck t
         -- C10: an `S iauth` line must report the number of live instances
